@@ -211,7 +211,7 @@ Section WithView.
   (* clean restart is the identity on what a client can see *)
   Lemma recover_view : forall m, cs_fk (m_db m) -> view (cs_recover m) = view m.
   Proof.
-    intros [s d p] Hfk. unfold cs_recover, cs_purge_db. cbn [m_db m_store].
+    intros [s d p] Hfk. unfold cs_recover, cs_recover_ord, cs_purge_db. cbn [m_db m_store].
     destruct (existsb (cs_listed d) (cs_marked_ids d)) eqn:El.
     - cbn [cs_del_seq]. apply view_store_ext. intros id Hid. apply sweep_get.
       unfold cs_listed in Hid. apply existsb_exists in Hid. destruct Hid as [r [Hr He]]. apply N.eqb_eq in He. subst id. apply Hfk. exact Hr.
@@ -236,13 +236,13 @@ Section WithView.
      no message is marked for deletion any more *)
   Lemma recover_no_orphans : forall m p, In p (m_store (cs_recover m)) -> cs_has_msg (m_db (cs_recover m)) (fst p) = true.
   Proof.
-    intros [s d pp] p. unfold cs_recover. cbn [m_db m_store]. destruct (cs_purge_db d) as [d1 ids]. cbn [m_store m_db].
+    intros [s d pp] p. unfold cs_recover, cs_recover_ord. cbn [m_db m_store]. destruct (cs_purge_db d) as [d1 ids]. cbn [m_store m_db].
     unfold cs_sweep. intros H. apply filter_In in H. tauto.
   Qed.
 
   Lemma recover_no_marked : forall m id, cs_marked_unlisted (m_db m) -> cs_marked (m_db (cs_recover m)) id = false.
   Proof.
-    intros [s d pp] id Hmu. unfold cs_recover, cs_purge_db. cbn [m_db] in *.
+    intros [s d pp] id Hmu. unfold cs_recover, cs_recover_ord, cs_purge_db. cbn [m_db] in *.
     assert (El : existsb (cs_listed d) (cs_marked_ids d) = false).
     { destruct (existsb (cs_listed d) (cs_marked_ids d)) eqn:E; [|reflexivity].
       apply existsb_exists in E. destruct E as [y [Hy He]].
